@@ -3,3 +3,4 @@
 import Dblib.Props.C11.Abstract
 import Dblib.Props.C11.Concrete
 import Dblib.Props.C11.History
+import Dblib.Props.C03.Duplex  -- the sending side does not touch the receive state
